@@ -90,7 +90,7 @@ func init() {
 func init() {
 	properties["C03"] = Property{
 		Level: "exploration",
-		Rule:  "one case = (fact set of 0-8 small facts, own and inherited; query tree of depth <=4 with arity 0..3, empty and/or, not under and/or, shortCircuit on/off, shared and fresh variables, code leaves from a family with known value) evaluated by Location.Query and, for half of them, as a rule condition inside ProcessEvent; compared as multisets of bindings; non-trivial = depth >=2 with a non-empty result, or not/or nested under another operator; distinct by canonical JSON of (state, facts, query); parents re-use the child's fact ids in half of the sets with a parent; look-alike scalars",
+		Rule:  "one case = (fact set of 0-8 small facts, own and inherited; query tree of depth <=4 with arity 0..3, empty and/or, not under and/or, shortCircuit on/off, shared and fresh variables, code leaves from a family with known value) evaluated by Location.Query and, for half of them, as a rule condition inside ProcessEvent; compared as multisets of bindings; non-trivial = depth >=2 with a non-empty result, or not/or nested under another operator; distinct by canonical JSON of (state, facts, query); parents re-use the child's fact ids in half of the sets with a parent; look-alike scalars; 1 pattern leaf in 10 has a property variable (as its only key), bound or not by other conjuncts; directed key-position cases",
 		Floor: [2]int{200, 2000},
 		Assumptions: []string{"lib/ref.Eval (written from the property statement) + lib/ref.Match are the specification", "code leaves come from a fixed family whose value is known (arbitrary JavaScript is out of reach)"},
 		Stages: []Stage{{Name: "query", Pkg: "./mon/c03", Procs: 2, Batches: [2]int{8, 16}, TimeoutS: [2]int{900, 3600}}},
